@@ -298,9 +298,10 @@ def check_max(prog: Program, res: Result) -> None:
         le = astq.loop_elems(lp, fi.node) if isinstance(lp, ast.For) else None
         pts = astq.expand(fi.node, le.seq) if le is not None else None
         arg0 = astq.expand(fi.node, d.args[0], keep=[le.elem] if le and le.elem else []) if isinstance(d, ast.Call) and d.args else None
-        okl = le is not None and pts is not None and "points_batch" in norm(pts) and arg0 is not None and \
+        whole = pts is not None and norm(astq.peel(pts, "reshape", "view", "flatten", "contiguous", "float", "to")) == "points_batch"
+        okl = le is not None and whole and arg0 is not None and \
             (le.is_elem(arg0) or le.is_elem(arg0, pts) or (le.elem is not None and le.elem in astq.names_in(arg0)))
-        res.ob(R, okl, fi.qualname, "loop visits every instance of the batch once", f"the loop iterates `{short(lp.iter, 40)}`", fi.where)
+        res.ob(R, okl, fi.qualname, "loop visits every instance of the batch once", f"the loop iterates `{short(pts if pts is not None else lp.iter, 60)}`: not every instance of points_batch (a filtered / sliced selection drops labelled animals)", fi.where)
     # generate_multiconfmaps slices to num_instances
     g = prog.func(f"{CM}:generate_multiconfmaps")
     sl = [n for n in walk_function(g.node) if isinstance(n, ast.Subscript) and norm(n.value) == "instances"]
